@@ -688,6 +688,37 @@ func reqRetry(s *scen) {
 	s.send(rq, nil, s.body("rq", 302))
 }
 
+// REQ with retransmission switched off (RETRY-TIME 0): the request still belongs to the socket until it is answered,
+// replaced or the socket closes -- also after the transport has written and released its reference.
+func reqNoRetry(s *scen) {
+	rq, rp := s.open("req"), s.open("rep")
+	defer rq.Close()
+	defer rp.Close()
+	_ = rq.SetOption(mangos.OptionRetryTime, time.Duration(0))
+	if !s.connect(rp, rq) {
+		return
+	}
+	for round := 0; round < 4; round++ {
+		n := s.size()
+		if s.send(rq, nil, s.body("nr", n)) != nil {
+			continue
+		}
+		h, err := s.recv(rp)
+		if err != nil {
+			continue
+		}
+		s.churn([]int{n, n + 4, 64}) // the application allocates while the request is outstanding
+		s.settle("req no-retry outstanding")
+		s.send(rp, nil, s.body("np", s.size()))
+		s.free(h)
+		s.recv(rq)
+		s.settle("req no-retry answered")
+	}
+	s.release(-1)
+	s.send(rq, nil, s.body("nr", 200)) // left outstanding at Close
+	time.Sleep(2 * time.Millisecond)
+}
+
 // two contexts on one REQ, answers crossing.
 func reqContexts(s *scen) {
 	rq, rp := s.open("req"), s.open("xrep")
@@ -1175,6 +1206,7 @@ func jobs() []job {
 			add(true, "survey", survey)
 			add(false, "survey-raw", surveyRaw)
 			add(true, "req-retry", reqRetry)
+			add(true, "req-noretry", reqNoRetry)
 			add(false, "req-contexts", reqContexts)
 			add(true, "req-drop", reqDrop)
 			add(false, "big-fan", bigFan)
